@@ -32,6 +32,7 @@ const (
 	reqDeadline   = 1500 * time.Millisecond // request timeout, ListObjects and ListUsers deadlines, ctx deadline (as the timeout middleware sets it)
 	deadlineSlack = 500 * time.Millisecond  // unwinding after the deadline fired is on time
 	hangAfter     = 5 * time.Second         // deadline + 5 s: violation; in between: inconclusive
+	confirmAfter  = 20 * time.Second        // bound of the confirming executions (a loaded machine stretches a slow request, not a stuck one)
 	heapLimit     = 256 << 20               // coarse heap growth bound per request
 	abortHeap     = 3 << 30                 // the child aborts itself beyond this (attributed memory violation)
 
@@ -198,6 +199,7 @@ func trunc(s string, n int) string {
 // ---- runner ----
 
 type runner struct {
+	hang     time.Duration // a request still running this long after its deadline is a hang
 	c        Case
 	srv      *server.Server
 	ds       storage.OpenFGADatastore
@@ -295,7 +297,7 @@ func (r *runner) guarded(i int, rpc string, feats map[string]bool, msg validatab
 	var o outT
 	select {
 	case o = <-done:
-	case <-time.After(reqDeadline + hangAfter):
+	case <-time.After(reqDeadline + r.hang):
 		r.res.Dirty = true
 		rr.WallMs = float64(time.Since(start).Milliseconds())
 		rr.Outcome = "hang"
@@ -304,7 +306,7 @@ func (r *runner) guarded(i int, rpc string, feats map[string]bool, msg validatab
 		dump := openfgaGoroutines(string(buf))
 		return rr, &Fail{Signature: "C19/hang-past-deadline:" + hotFrame(dump, rpc), Timing: true, ReqIndex: i,
 			Msg: fmt.Sprintf("%s did not return within %v of its %v deadline (still running after %v); passed Validate(): %v, wire-deliverable: %s\ngoroutines running server code:\n%s",
-				rpc, hangAfter, reqDeadline, reqDeadline+hangAfter, rr.Validated, rr.Wire, trunc(dump, 16000))}
+				rpc, r.hang, reqDeadline, reqDeadline+r.hang, rr.Validated, rr.Wire, trunc(dump, 16000))}
 	}
 	wall := time.Since(start)
 	runtime.ReadMemStats(&after)
@@ -380,6 +382,12 @@ func hotFrame(dump, rpc string) string {
 	if strings.HasPrefix(best, "internal/listobjects/pipeline") {
 		return "internal/listobjects/pipeline"
 	}
+	if strings.HasPrefix(best, "graph.(*WeightedAuthorizationModelGraph)") { // github.com/openfga/language weighted graph builder
+		return "language/graph.(*WeightedAuthorizationModelGraph)"
+	}
+	if strings.HasPrefix(best, "internal/check.(*Resolver)") { // weighted-graph Check: its resolvers call each other
+		return "internal/check.(*Resolver)"
+	}
 	// the reducers of the Check resolution tree all sit on top of runHandler
 	for _, f := range []string{"internal/graph.union", "internal/graph.intersection", "internal/graph.exclusion", "internal/graph.runHandler"} {
 		if best == f || strings.HasPrefix(best, f+".") {
@@ -402,34 +410,49 @@ func openfgaGoroutines(dump string) string {
 
 // runCase evaluates a whole case on a fresh server over a fresh memory datastore.
 func runCase(c Case, progress func(i int, rpc, wire string)) (res Result) {
+	return runCaseHang(c, hangAfter, progress)
+}
+
+// runCaseHang is runCase with an explicit hang bound.
+func runCaseHang(c Case, hang time.Duration, progress func(i int, rpc, wire string)) (res Result) {
+	if hang <= 0 {
+		hang = hangAfter
+	}
 	startSampler(false)
 	var base runtime.MemStats
 	runtime.GC()
 	runtime.ReadMemStats(&base)
-	defer func() {
-		// retained growth of the whole case (server closed): repeated requests that
-		// each leave something behind add up here
-		if res.Fail != nil || res.Dirty {
-			return
+	// The server, the datastore and everything they hold (stored models and tuples are
+	// state, not a leak) are local to runCaseInner: once it has returned, only what the
+	// process keeps globally (or what leaked goroutines pin) is still reachable.
+	res = runCaseInner(c, hang, progress)
+	if res.Fail != nil || res.Dirty {
+		return res
+	}
+	// retained growth of the whole case: repeated requests that each leave something behind add up here
+	var end runtime.MemStats
+	runtime.GC()
+	runtime.GC() // finalizers of the first cycle
+	runtime.ReadMemStats(&end)
+	retained := int64(end.HeapAlloc) - int64(base.HeapAlloc)
+	res.RetainedMB = float64(retained) / (1 << 20)
+	if retained >= heapLimit {
+		top, where := heapTop()
+		if fam, bytes := fattestMetricFamily(); bytes >= 32<<20 {
+			where = "metric-labels:" + fam
+			top = fmt.Sprintf("the label values of metric family %q hold %d MiB (every distinct request value became a time series)\n%s", fam, bytes>>20, top)
 		}
-		var end runtime.MemStats
-		runtime.GC()
-		runtime.ReadMemStats(&end)
-		retained := int64(end.HeapAlloc) - int64(base.HeapAlloc)
-		res.RetainedMB = float64(retained) / (1 << 20)
-		if retained >= heapLimit {
-			top, where := heapTop()
-			if fam, bytes := fattestMetricFamily(); bytes >= 32<<20 {
-				where = "metric-labels:" + fam
-				top = fmt.Sprintf("the label values of metric family %q hold %d MiB (every distinct request value became a time series)\n%s", fam, bytes>>20, top)
-			}
-			res.Dirty = true // process-global state is polluted: continue in a fresh process
-			res.Fail = &Fail{Signature: "C19/retained-heap-growth:" + where, ReqIndex: -5,
-				Msg: fmt.Sprintf("after %d requests (+%d repetitions), Server.Close and a GC the process retains %d MiB more than before the case (bound %d MiB)\nlargest live allocation sites:\n%s",
-					len(res.Reqs), res.Repeats, retained>>20, heapLimit>>20, top)}
-		}
-	}()
-	r := &runner{c: c, progress: progress}
+		res.Dirty = true // process-global state is polluted: continue in a fresh process
+		res.Fail = &Fail{Signature: "C19/retained-heap-growth:" + where, ReqIndex: -5, Timing: true,
+			Msg: fmt.Sprintf("after %d requests (+%d repetitions), Server.Close and a GC the process retains %d MiB more than before the case (bound %d MiB)\nlargest live allocation sites:\n%s",
+				len(res.Reqs), res.Repeats, retained>>20, heapLimit>>20, top)}
+	}
+	return res
+}
+
+// runCaseInner builds the server, runs the case and closes the server.
+func runCaseInner(c Case, hang time.Duration, progress func(i int, rpc, wire string)) (res Result) {
+	r := &runner{c: c, progress: progress, hang: hang}
 	r.res.StateFeats = map[string]bool{}
 	srv, ds, err := newServer(c.Opts)
 	if err != nil {
